@@ -111,6 +111,70 @@ type vlruEv struct {
 	Cap int    `json:"cap"`
 }
 
+// vlruDirected records one directed history (see the call site); returns the last operation id used.
+func vlruDirected(enc *json.Encoder, idp *int, capa, getters int) int {
+	id := *idp
+	c := NewLRUCache[int, int](uint(capa))
+	var ctr atomic.Int64
+	var all []vlruEv
+	seq := func(op string, k, v int) {
+		id++
+		s1 := ctr.Add(1)
+		r := 0
+		if op == "Get" {
+			r = c.Get(k)
+		} else {
+			c.Put(k, v)
+		}
+		s2 := ctr.Add(1)
+		all = append(all, vlruEv{Seq: s1, Ev: "call", ID: id, Op: op, K: k, V: v}, vlruEv{Seq: s2, Ev: "ret", ID: id, Res: r})
+	}
+	for k := 1; k <= capa; k++ { // key 1 ends up least recently used
+		seq("Put", k, k)
+	}
+	var mu sync.Mutex
+	var wg sync.WaitGroup
+	start := make(chan struct{})
+	conc := func(op string, k, v int) {
+		id++
+		oid := id
+		wg.Add(1)
+		go func() {
+			defer wg.Done()
+			<-start
+			s1 := ctr.Add(1)
+			r := 0
+			if op == "Get" {
+				r = c.Get(k)
+			} else {
+				c.Put(k, v)
+			}
+			s2 := ctr.Add(1)
+			mu.Lock()
+			all = append(all, vlruEv{Seq: s1, Ev: "call", ID: oid, Op: op, K: k, V: v}, vlruEv{Seq: s2, Ev: "ret", ID: oid, Res: r})
+			mu.Unlock()
+		}()
+	}
+	for g := 0; g < getters; g++ {
+		conc("Get", 1, 0)
+	}
+	conc("Put", capa+1, 3)
+	c.Lock()
+	close(start)
+	time.Sleep(3 * time.Millisecond)
+	c.Unlock()
+	wg.Wait()
+	for k := 1; k <= capa+1; k++ { // what is left, least suspicious first: looking a key up refreshes it but evicts nothing
+		seq("Get", k, 0)
+	}
+	sort.Slice(all, func(i, j int) bool { return all[i].Seq < all[j].Seq })
+	enc.Encode(vlruEv{Ev: "reset", Cap: capa})
+	for _, e := range all {
+		enc.Encode(e)
+	}
+	return id
+}
+
 func TestVerifLRUConc(t *testing.T) {
 	res := vNewResult("C35")
 	defer res.Write(t)
@@ -128,6 +192,14 @@ func TestVerifLRUConc(t *testing.T) {
 	enc := json.NewEncoder(f)
 	id := 0
 	for h := 0; h < nhist; h++ {
+		if h%5 == 4 {
+			// directed history: a full cache, then a Get of the least recently used key races with Puts of new keys while
+			// the harness holds the write lock (the readers are released first, the writers after them).  Whatever the
+			// order, "the Get saw the key" and "the key was the next one evicted" cannot both be true.
+			id = vlruDirected(enc, &id, 2+h%2, 1+(h/5)%3)
+			res.Case("history-directed", fmt.Sprintf("%d|%d", 2+h%2, 1+(h/5)%3))
+			continue
+		}
 		capa := 1 + rng.Intn(3)
 		c := NewLRUCache[int, int](uint(capa))
 		ng := 2 + rng.Intn(3)
